@@ -97,6 +97,25 @@ func run(args []string) int {
 		}
 		bad := 0
 		for _, name := range args[1:] {
+			if strings.HasPrefix(name, "lemma:") {
+				for _, l := range p.cs.Lemmas {
+					if l.Name == name[6:] {
+						r := verifyLemma(p, l, 10)
+						if r.Err != "" {
+							fmt.Println("ERROR", r.Err)
+							bad++
+							continue
+						}
+						for _, o := range r.Obls {
+							fmt.Printf("%s %s %s %.2fs\n", o.Result, o.Name, o.Solver, o.TimeS)
+							if o.Result != "unsat" {
+								bad++
+							}
+						}
+					}
+				}
+				continue
+			}
 			fn := p.funcs[name]
 			if fn == nil {
 				fmt.Printf("no such function %q\n", name)
